@@ -335,17 +335,50 @@ def cast_form(arg):
         return "unique_ptr<T>& family"
     if "(&)" in a:
         return "const T&" if a.startswith("const ") else "T&"
-    if a.startswith("const ") and a.endswith("*"):
-        return "const T*"
-    if a.endswith("*"):
-        return "T*"
-    if a.startswith("const ") and a.endswith("&"):
-        return "const T&"
+    return split_form(a)[0]
+
+
+def top_const(core):
+    """(is the type const at top level?, the type without that const)"""
+    c = core.strip()
+    m = re.search(r"\*\s*const$", c)
+    if m:
+        return True, c[:m.start() + 1].strip()
+    if c.endswith("*"):
+        return False, c
+    if c.startswith("const "):
+        return True, c[6:].strip()
+    if c.endswith(" const"):
+        return True, c[:-6].strip()
+    return False, c
+
+
+def split_form(a):
+    """template argument of Cast_Helper_Inner -> (form, T) following the partial specialisations:
+    const T& / T& / T&& / const T* / T* / T"""
+    a = a.strip()
     if a.endswith("&&"):
-        return "T&&"
+        return "T&&", a[:-2].strip()
     if a.endswith("&"):
-        return "T&"
-    return "T (by value)"
+        core = a[:-1].strip()
+        tc, base = top_const(core)
+        return ("const T&", base) if tc else ("T&", core)
+    tc, v = top_const(a)           # a by-value `T *const` is `T *`
+    if v.endswith("*"):
+        pointee = v[:-1].strip()
+        pc, pbase = top_const(pointee)
+        return ("const T*", pbase) if pc else ("T*", pointee)
+    return "T (by value)", v
+
+
+def pointee_of(t):
+    """`X *` -> X without a top-level const (arrays and function types keep the old normalisation)"""
+    t = t.strip()
+    if "(&)" in t or "(*)" in t or "(&&)" in t:
+        return bare(t)
+    if t.endswith("*"):
+        return top_const(t[:-1].strip())[1]
+    return bare(t)
 
 
 def check_cast(prog, f, arg, form):
@@ -356,9 +389,12 @@ def check_cast(prog, f, arg, form):
         if len(ver) != 1:
             return False, "result does not come from exactly one verify_type call"
         v = ver[0]
-        res = bare(arg)
+        res = bare(arg) if ("(&)" in arg or "(&&)" in arg or "(*)" in arg) else split_form(arg)[1]
         tid = strip_casts(v["args"][1]) if len(v.get("args", [])) > 1 else {}
-        if tid.get("k") != "typeid" or norm_ws(re.sub(r"^const\s+", "", prog.T(f, tid.get("of")))) != norm_ws(res):
+        tid_t = prog.T(f, tid.get("of")) if tid.get("of") is not None else ""
+        if not tid_t.rstrip().endswith("*"):
+            tid_t = re.sub(r"^const\s+", "", tid_t)
+        if tid.get("k") != "typeid" or norm_ws(tid_t) != norm_ws(res):
             return False, "verifier is given typeid(%s) for result type %s" % (prog.T(f, tid.get("of")) if tid.get("of") is not None else "?", res)
         ptr = strip_casts(v["args"][2]) if len(v.get("args", [])) > 2 else {}
         pname = ptr.get("name")
@@ -366,7 +402,7 @@ def check_cast(prog, f, arg, form):
         if pname != want:
             return False, "%s result obtained from %s()" % ("mutable" if want == "get_ptr" else "const", pname)
         sc = [n for n in walk(body) if n.get("k") == "cast" and n.get("ck") == "static" and any(x is v for x in walk(n))]
-        if len(sc) != 1 or norm_ws(bare(prog.T(f, sc[0].get("t")))) != norm_ws(res):
+        if len(sc) != 1 or norm_ws(pointee_of(prog.T(f, sc[0].get("t")))) != norm_ws(res):
             return False, "verified pointer is cast to %s, result type is %s" % (prog.T(f, sc[0].get("t")) if sc else "?", res)
         return True, ""
     if form in ("shared_ptr<T>", "shared_ptr<T>&", "shared_ptr<const T>"):
